@@ -167,6 +167,7 @@ theorem prefixPhase_facts (cx : Ctx c) (b st : Bytes) (isP : Bool) (hb : Bytes.V
     (h : prefixPhase c b = .ok (isP, st)) :
     st.ic = b.ic ∧ st.fc = b.fc ∧ StartC c .integer st ∧ (c.basePrefix = 0 → Alt23 c .integer st) := by
   unfold prefixPhase at h
+  simp only [prefixRepair, Bool.false_eq_true, if_false] at h
   split at h
   · next hcond =>
     simp only [Bool.and_eq_true, bne_iff_ne, ne_eq, decide_eq_true_eq] at hcond
